@@ -216,6 +216,8 @@ def s12_config_setters(ctx):
                 base_ty = b.local_ty(st["pl"]["l"])
                 through_conf = "conf" in flds[:-1]
                 cfg_base = any(x in base_ty.split("<")[0] for x in ("storage::bitcask::config::Config", "storage::bitcask::config::MergeStrategy", "storage::bitcask::config::MergeTriggers", "storage::bitcask::config::MergeThresholds"))
+                if (through_conf or cfg_base) and b.name.startswith("storage::bitcask::config::Config::") and b.origin_rvalue(st["rv"])[0] == "arg":
+                    continue  # a setter by shape (stores its own parameter), also one added later
                 if through_conf or cfg_base:
                     n_w += 1
                     r.bad(fam_name(b), "writes setting %s" % ".".join(flds), short_span(st.get("span")), "a setting is rewritten outside the setters: the store does not run with the configuration it was given (a threshold or limit the user chose is silently replaced)")
